@@ -18,9 +18,9 @@ CLAIMED = {
     "C01": ("TLA+ AssemblyDNA.tla/Restriction.tla: TLC ImplProduct = Formula on all rotations/orders of small worlds + TLC validation of assembly traces against the closed form computed from sites and cuts",
             "The documented closed form of the product is a TLA+ operator over the canonic decompositions; TLC proves the implementation-shaped computation equal to it on every rotation and argument order of small worlds and recomputes it for every real assembly (26 real + 5 synthetic geometries, chains 1-5, random rotations, shuffled arguments), comparing as circles.",
             "Oracle uses neither the structure regex nor elucidate(); sampled inputs beyond the small worlds.", "6/C01"),
-    "C03": ("TLA+ Assembly.tla: TLC step machine = Expected over all overhang graphs + negative-free replay of final states into real code + TLC validation of the executions at DNA level",
+    "C03": ("TLA+ Assembly.tla: TLC step machine = Expected over all overhang graphs (+ negative model for palindromic overhangs) + replay of final states into real code + TLC validation of the executions at DNA level",
             "The assembly is an explicit step machine compared by TLC with the declarative outcome on every vector pair and module sequence over an alphabet with reverse-complementary and palindromic overhangs; final states are concretised to DNA and executed (outcome, stall overhang, unused set compared) and every execution is re-judged by the DNA-level trace specification; argument-order twins.",
-            "Module sequences bounded at 3 (quick) over 5-7 symbols; palindromic start overhang read permissively (DESIGN 5).", "6/C03"),
+            "Module sequences bounded at 3 over 5 (quick) / 7 (thorough) symbols; a palindromic start overhang is not a duplicate (DESIGN 5, defect D9 repaired).", "6/C03"),
     "C07": ("TLA+ Assembly.tla: TLC InputsRestored with a fault at every step + negative model + TLC validation of traces with exceptions injected at every call into instrumented inputs",
             "Crash points are actions of the specification (Fault at every step); the negative model without restore is refuted; in the real code an exception is injected at every call the assembly makes into the supplied objects, and deep snapshots of every input before/after plus repeated calls are compared by the trace specification.",
             "Crash points = calls into user-supplied objects (overhang_start/overhang_end/target_sequence).", "6/C07"),
@@ -95,7 +95,7 @@ man = {
     "engines": [{"name": "tlc", "path": "/opt/veriftools/tla/tla2tools.jar", "serves_properties": sorted(CLAIMED),
                  "kind_free_text": "TLC 1.8 explicit-state model checker; used for model checking the TLA+ specification in spec/ and for validating ndjson traces of the implementation against it"}],
     "checks": checks,
-    "notes": "Model-based verification with an explicit TLA+ specification (spec/*.tla). Every check = TLC on MC_* configurations + traces of the real code validated by TLC (Trace_*.tla) and/or TLC-generated behaviours replayed into the real code. See DESIGN.md.",
+    "notes": "Model-based verification with an explicit TLA+ specification (spec/*.tla, 24 modules). Every check = TLC on MC_* configurations (+ negative models that must be refuted) + traces of the real code validated by TLC (Trace_*.tla, total verdicts) and/or TLC-enumerated behaviours replayed into the real code. ./check selftest demonstrates the binding (corrupted trace fields are rejected with the expected clause). 9 genuine defects were found and repaired by 'fix:' commits in /repo (KNOWN_FINDINGS.json, all status=fixed). seeded/ holds 63 confirmed seeded changes from independent sub-agents plus the 9 reverts of the repairs, each detected by the quick tier of the owning check (scripts/try_seed.sh). See DESIGN.md section 11.",
     "not_applicable": na,
 }
 json.dump(man, open(os.path.join(HERE, "MANIFEST.json"), "w"), indent=1)
